@@ -1,4 +1,4 @@
-from math import copysign, isnan
+from math import copysign, inf, isnan
 from typing import cast
 
 from xdsl.dialects import arith, builtin
@@ -10,6 +10,7 @@ from xdsl.interpreter import (
     impl,
     register_impls,
 )
+from xdsl.ir import Attribute
 from xdsl.utils.comparisons import to_signed, to_unsigned
 from xdsl.utils.exceptions import InterpretationError
 from xdsl.utils.hints import isa
@@ -38,6 +39,26 @@ def _truncate(value: int, to_bitwidth: int) -> int:
     if truncated & (1 << (to_bitwidth - 1)):
         return truncated - (1 << to_bitwidth)
     return truncated
+
+
+def _round_to_float_type(value: float, typ: Attribute) -> float:
+    """
+    Rounds the result of a floating-point operation, computed on Python's double
+    precision floats, to the nearest value of the result type (ties to even, values
+    beyond the range of the type become infinities).
+    """
+    if isinstance(
+        typ,
+        builtin.Float32Type
+        | builtin.Float16Type
+        | builtin.BFloat16Type
+        | builtin.ReducedPrecisionFloatType,
+    ):
+        try:
+            return typ.unpack(typ.pack((value,)), 1)[0]
+        except OverflowError:
+            return copysign(inf, value)
+    return value
 
 
 @register_impls
@@ -97,15 +118,15 @@ class ArithFunctions(InterpreterFunctions):
 
     @impl(arith.SubfOp)
     def run_subf(self, interpreter: Interpreter, op: arith.SubfOp, args: PythonValues):
-        return (args[0] - args[1],)
+        return (_round_to_float_type(args[0] - args[1], op.result.type),)
 
     @impl(arith.AddfOp)
     def run_addf(self, interpreter: Interpreter, op: arith.AddfOp, args: PythonValues):
-        return (args[0] + args[1],)
+        return (_round_to_float_type(args[0] + args[1], op.result.type),)
 
     @impl(arith.MulfOp)
     def run_mulf(self, interpreter: Interpreter, op: arith.MulfOp, args: PythonValues):
-        return (args[0] * args[1],)
+        return (_round_to_float_type(args[0] * args[1], op.result.type),)
 
     @impl(arith.MinimumfOp)
     def run_minimumf(
